@@ -113,6 +113,8 @@ def special_circuits():
                                       "u.d": ("bb_input", ["g"]), "u.en": ("bb_input", []), "dead": ("or", ["b", "w2"]), "w2": ("buf", ["u.qn"])}, outputs=[], blackboxes={"u": ff})
     yield "bb-output-feeds-only-dead", build({"a": ("input", []), "u.q": ("bb_output", []), "w": ("buf", ["u.q"]), "n": ("not", ["w"]), "o": ("buf", ["a"])}, outputs=["o"],
                                               blackboxes={"u": RefBlackBox("src", [], ["q"])})
+    yield "instance-name-with-a-dot", build({"a": ("input", []), "core.ff0.d": ("bb_input", ["g"]), "core.ff0.en": ("bb_input", []), "core.ff0.q": ("bb_output", []), "w": ("buf", ["core.ff0.q"]),
+                                                "g": ("not", ["a"]), "dead": ("buf", ["w"])}, outputs=[], blackboxes={"core.ff0": RefBlackBox("ff", ["d", "en"], ["q"])})
     yield "input-becomes-unloaded-late", build({"a": ("input", []), "b": ("input", []), "g": ("and", ["a", "b"]), "h": ("not", ["g"]), "k": ("or", ["h", "g"]), "o": ("buf", ["b"])}, outputs=["o"])
     yield "output-is-input", build({"a": ("input", []), "b": ("input", []), "g": ("xor", ["a", "b"])}, outputs=["a"])
     yield "constants", build({"z": ("0", []), "w": ("1", []), "x": ("x", []), "a": ("input", []), "g": ("or", ["z", "a"]), "h": ("and", ["w", "x"])}, outputs=["g"])
